@@ -152,6 +152,26 @@ func enumerateIdx[T comparable](op Op, o *Oracle, d *Dom[T], en *idxEnumA[T], se
 			o.Fail("C14", "result-tojson", "the result of %s(%d,%d) over %v serialises as %s, a fresh container holding the same elements as %s", op.N, p, k, mapS(seq, ps), g, w)
 			return true
 		}
+		// ... and iterates like one, in both directions
+		if itf := resultIter[T](res); itf != nil {
+			vals := res.(containers.Container[T]).Values()
+			var fwd, back []T
+			for itf.Next() {
+				fwd = append(fwd, itf.Value())
+			}
+			if rit, ok := itf.(containers.ReverseIteratorWithIndex[T]); ok {
+				for rit.End(); rit.Prev(); {
+					back = append(back, rit.Value())
+				}
+				slices.Reverse(back)
+			} else {
+				back = vals
+			}
+			if joinS(fwd, d.Str) != joinS(vals, d.Str) || joinS(back, d.Str) != joinS(vals, d.Str) {
+				o.Fail("C14", "result-iteration", "the result of %s(%d,%d) over %v has Values() %s but iterates forwards as %s and backwards as (reversed) %s", op.N, p, k, mapS(seq, ps), joinS(vals, d.Str), joinS(fwd, d.Str), joinS(back, d.Str))
+				return true
+			}
+		}
 		// the result is a working container of the same discipline (and comparator): mutate it under the
 		// ordinary oracles; the receiver must not move
 		so := subOracle(o, resultTags...)
@@ -379,6 +399,25 @@ func (s *kvSubj[K]) Enumerate(op Op, o *Oracle) bool {
 			o.Fail("C14", "result-tojson", "the result of %s(%d,%d) over %v serialises as %s, a fresh map holding the same pairs as %s", op.N, p, k, mapS(seq, ps), g, w)
 			return true
 		}
+		if itf := rs.keyIter(); itf != nil { // (rs.m is the result)
+			keys := res.Keys()
+			var fwd, back []K
+			for itf.Next() {
+				fwd = append(fwd, itf.Key())
+			}
+			if rit, ok := itf.(containers.ReverseIteratorWithKey[K, string]); ok {
+				for rit.End(); rit.Prev(); {
+					back = append(back, rit.Key())
+				}
+				slices.Reverse(back)
+			} else {
+				back = keys
+			}
+			if joinS(fwd, d.Str) != joinS(keys, d.Str) || joinS(back, d.Str) != joinS(keys, d.Str) {
+				o.Fail("C14", "result-iteration", "the result of %s(%d,%d) over %v has Keys() %s but iterates forwards as %s and backwards as (reversed) %s", op.N, p, k, mapS(seq, ps), joinS(keys, d.Str), joinS(fwd, d.Str), joinS(back, d.Str))
+				return true
+			}
+		}
 		so := subOracle(o, resultTags...)
 		c := &Client{Role: "churn"}
 		r := NewRng(uint64(op.ID)*7919 + 17)
@@ -401,6 +440,17 @@ func (s *kvSubj[K]) Enumerate(op Op, o *Oracle) bool {
 	}
 	unchanged(op.N)
 	return true
+}
+
+// resultIter returns an iterator of a Select/Map result of the index flavour.
+func resultIter[T comparable](res any) containers.IteratorWithIndex[T] {
+	switch r := res.(type) {
+	case lists.List[T]:
+		return listIter(r)
+	case sets.Set[T]:
+		return setIter(r)
+	}
+	return nil
 }
 
 type enumWorld struct{}
